@@ -24,7 +24,8 @@ func c13prop(r *simkit.Run) {
 	rt := r.T
 	guardRun = r
 	maxAvg := int64(rapid.SampledFrom([]int{2, 5, 20, 200}).Draw(rt, "avg-scale"))
-	rates := drawRates(rt, true, maxAvg)
+	// C13 is stated for every configuration: by draw bursts go far beyond the "burst <= 5 x average" domain of C03
+	rates := drawRates(rt, rapid.IntRange(0, 3).Draw(rt, "wide-bursts") != 0, maxAvg)
 	drawRateSource(rt)
 	nsrc := rapid.IntRange(1, 4).Draw(rt, "sources")
 	// by draw the caller's rate extractor changes plan while sources are being served: the same periods with
